@@ -233,6 +233,11 @@ def run_engine(ctx: Ctx, n, want_visualize=False):
                 if r["outcome"] != "untrusted" or r["names"] != pt["names"]:
                     mism.append(dict(what="verdict differs (model: untrusted)", schema=c.schema, T=T, model=pt, impl=r))
             elif pt["verdict"] == "ok":
+                stats["refs_invariant_checked"] += 1
+                if pt.get("refsAudited") is False:
+                    # hypothesis of C01.load_only_vouched_refs: what a CachedNode points at was audited where it sits
+                    mism.append(dict(what="memo invariant violated on the model tree: a CachedNode target has a non-empty audit of its own "
+                                          "although the audit of the root is empty", schema=c.schema, T=T))
                 if r["outcome"] == "untrusted":
                     mism.append(dict(what="verdict differs (model: audit passes)", schema=c.schema, T=T, model=pt, impl=r))
                 elif not subseq(r["events"], pt["events"], recursion=r.get("e") == "RecursionError"):
